@@ -306,6 +306,10 @@ func cmdCheck(args []string) int {
 				cmd := exec.Command(workerExe, "worker", "-prop", prop, "-engine", e.Name(), "-seed", fmt.Sprint(mix64(seed^uint64(ei+1)*0x517cc1b727220a95)),
 					"-idx", fmt.Sprint(wi), "-n", fmt.Sprint(*workers), "-budget", fmt.Sprint(tc.budget), "-runs", fmt.Sprint(tc.maxRuns))
 				cmd.Env = append(append(os.Environ(), "VERIF_DIR="+verifDir()), extraEnv...)
+				if *tier == "thorough" {
+					// blocks with 65536+ additions (seconds per case) only in the thorough tier
+					cmd.Env = append(cmd.Env, "VERIF_HUGE=1")
+				}
 				var so, se bytes.Buffer
 				cmd.Stdout, cmd.Stderr = &so, &se
 				done := make(chan error, 1)
